@@ -51,7 +51,8 @@ def generators():
     import gen_mro
     import gen_skel
     import gen_create
-    gens = {'Create': gen_create.generate, 'Framing': gen_framing.generate, 'Registry': gen_registry.generate, 'Persist': gen_persist.generate,
+    import gen_handshake
+    gens = {'Create': gen_create.generate, 'Handshake': gen_handshake.generate, 'Framing': gen_framing.generate, 'Registry': gen_registry.generate, 'Persist': gen_persist.generate,
             'MroScan': gen_mro.generate, 'Skel': gen_skel.generate}
     try:
         import gen_units
